@@ -26,7 +26,9 @@ def get_cases(chk, quick, seed, n_pairs_quick=110, n_sim_quick=30, n_sim_thoroug
         rest = [c for c in pairs if set(c['features']) not in corners]
         cases = singles + fixed + rnd.sample(rest, min(n_pairs_quick, len(rest)))
     # fixed TRIPLES (feature interactions that need three features; emitted by TLC with every other feature avoided)
-    triples = [('o_grpc_rest', 'o_rest_async', 'o_mixins'), ('o_grpc_rest', 'o_rest_async', 'm_lro'), ('f_deppkg', 'm_dep_request', 'o_grpc_rest')]
+    triples = [('o_grpc_rest', 'o_rest_async', 'o_mixins'), ('o_grpc_rest', 'o_rest_async', 'm_lro'), ('f_deppkg', 'm_dep_request', 'o_grpc_rest'),
+               ('f_deppkg', 'm_dep_request', 's_flatten'),      # flattened arguments into a dependency-package request (own branch of the asyncio client)
+               ('s_required', 'o_rest', 'o_numeric')]           # required query defaults next to the $alt system parameter
     allf = sorted({f for c in cases for f in c['features']})
     for t in triples:
         avoid = '{' + ', '.join('"%s"' % f for f in allf if f not in t) + '}'
@@ -34,7 +36,9 @@ def get_cases(chk, quick, seed, n_pairs_quick=110, n_sim_quick=30, n_sim_thoroug
                                  deadlock=False, timeout=600)
         cs3 = [c for c in cs3 if sorted(c['features']) == sorted(t)]
         if only_conventional:
-            cs3 = [c for c in cs3 if c['conventional']]
+            # (DESIGN section 8 admits requests from a dependency package; Features.tla keeps m_dep_request outside the profile as a
+            # whole, this triple was probed on the unchanged tree: 200 emitted tests, none fails)
+            cs3 = [c for c in cs3 if c['conventional'] or t == ('f_deppkg', 'm_dep_request', 's_flatten')]
         cases += cs3
     sim, r3 = tlc.emit_cases('Features', 'Features.emit.sim.cfg', deadlock=False, simulate=(n_sim_quick if quick else n_sim_thorough) * 2,
                              depth=14, seed=seed, timeout=900)
